@@ -10,7 +10,7 @@ from checklib import core
 BINS = ["reserve"]
 PID = "C13"
 MAX256 = (1 << 256) - 1
-KINDS = ["planner", "journal", "e2e"]
+KINDS = ["planner", "journal", "rule", "e2e"]
 
 
 def setup():
@@ -208,6 +208,45 @@ def journal_stats(d):
     return dict(distinct_nontrivial=len(nontrivial), with_several_candidates=multi, with_account_destroyed=destroyed, malformed_stream=malformed)
 
 
+# ------------------------------------------------------------------------------- rule
+
+def parse_rule(case):
+    t = Toks(case); t.next()
+    malformed = t.next() == "1"
+    txs = [t.tx() for _ in range(t.dec())]
+    txid = t.hex(); cp = t.hex(); state = t.state(); entries = t.entries()
+    return malformed, txs, txid, cp, state, entries
+
+
+def rule_predicate(case, res):
+    """Model-independent: the property text in Python integers on journals produced by revm."""
+    malformed, txs, txid, cp, state, entries = parse_rule(case)
+    if malformed:
+        return None
+    tx = txs[txid]
+    hits = []
+    for a, i in py_candidates(entries, cp, tx, state).items():
+        required = min(MAX256, sum(py_cost(x) for j, x in enumerate(txs) if j > txid and x["caller"] == a))
+        final = state[a][0]
+        before = py_walk(entries, i, a, final)
+        if required != 0 and final < min(before, required):
+            hits.append((a, before, final, required))
+    want = "v:1" if hits else "v:0"
+    if res.strip() != want:
+        return "has_reserve_violation returned %s; candidates below min(before, required) [(account, before, final, required)]: %s; all candidates: %s" % (
+            res.strip(), [(a, hex(b), hex(f), hex(r)) for a, b, f, r in hits], py_candidates(entries, cp, tx, state))
+    return None
+
+
+def rule_stats(d):
+    viol, malformed = set(), 0
+    for case, res in zip(d["cases"], d["impl"]):
+        if res.strip() == "v:1":
+            viol.add(case)
+        malformed += case.startswith("rule 1 ")
+    return dict(distinct_nontrivial=len(viol), malformed_stream=malformed)
+
+
 # ------------------------------------------------------------------------------- end-to-end
 
 def parse_e2e(case):
@@ -268,11 +307,12 @@ def e2e_stats(d):
     return dict(distinct_nontrivial=len(nontrivial), transactions=txs, charged_reverts=viol, lack_of_funds_skips=skips)
 
 
-PREDICATES = {"planner": planner_predicate, "journal": journal_predicate, "e2e": e2e_predicate}
-STATS = {"planner": planner_stats, "journal": journal_stats, "e2e": e2e_stats}
+PREDICATES = {"planner": planner_predicate, "journal": journal_predicate, "rule": rule_predicate, "e2e": e2e_predicate}
+STATS = {"planner": planner_stats, "journal": journal_stats, "rule": rule_stats, "e2e": e2e_stats}
 WHAT = {
     "planner": "required_after is not the saturating sum of the account's later maximum costs",
     "journal": "the journal scan / reverse walk does not report the surviving delegated debits with the balance before the first one",
+    "rule": "has_reserve_violation does not decide `some delegated account ends below min(balance before its first protected debit, required_after)`",
     "e2e": "a delegated-account block is not executed as the property requires (charged top-level revert exactly when the reserve is violated, otherwise identical to the policy being off)",
 }
 
@@ -289,7 +329,7 @@ def run(ctx):
     if not ok:
         raise RuntimeError("cargo build failed:\n" + out[-3000:])
     model = core.ocaml_build("reserve", "reserve", "reserve_drv")
-    counts = dict(planner=3000 if ctx.quick else 90000, journal=4000 if ctx.quick else 120000, e2e=700 if ctx.quick else 14000)
+    counts = dict(planner=3000 if ctx.quick else 90000, journal=4000 if ctx.quick else 120000, rule=6000 if ctx.quick else 150000, e2e=700 if ctx.quick else 14000)
     diffs = {k: differential(ctx, k, bins["reserve"], model, counts[k]) for k in KINDS}
     corr_ok = all(d["first_diff"] is None for d in diffs.values())
 
@@ -325,6 +365,8 @@ def run(ctx):
              "balance_incr / set_balance / decr_balance, nested checkpoints committed or reverted, CREATE endowments, root transfer, reimbursement), then the "
              "production delegated_debits_since and balance_before_entry vs the extracted model; every fourth case pushes arbitrary (ill-formed, near-U256::MAX) entries "
              "directly; non-trivial = distinct case with at least one reported candidate. "
+             "rule: the production WithReserveHandler::has_reserve_violation inside a real mainnet EVM context whose journal was driven as above, with the production "
+             "planner over a random block containing the transaction, vs the extracted reserve_violation; non-trivial = distinct case reporting a violation. "
              "e2e: seeded EIP-7702 blocks (pre-delegated and on-the-fly delegated accounts, sponsors, own later transactions at any position, exact / one-short / "
              "ample / insufficient balances, inner reverts, bounced credits, CREATE endowment, SELFDESTRUCT, create transactions, credits before debits) through the "
              "public Scheduler with the policy on (sequential and 4-way parallel) and off; per transaction the extracted rule applied to the in-order stock-revm "
